@@ -269,7 +269,9 @@ def _roundtrip(R, si, only):
             R.add("transitions", 2)
             R.cls("roundtrip")
             out = os.path.join(d, f"o{kk}.cool")
-            code, so2, exc = build.cli(["load", "-f", fmt, "--chunksize", cs, "--temp-dir", d] + largs + ([] if symm else ["-N"]) + [bed, txt, out])
+            # small chunks: also a fan-in below the number of chunks (the external sort then merges in two passes)
+            mm = ["--max-merge", 2 + cs % 2] if cs <= 4 else []
+            code, so2, exc = build.cli(["load", "-f", fmt, "--chunksize", cs, "--temp-dir", d] + mm + largs + ([] if symm else ["-N"]) + [bed, txt, out])
             if code != 0 or exc is not None:
                 R.mismatch("load-of-own-dump-fails", inner, f"code={code} exc={exc!r}")
                 continue
